@@ -976,9 +976,9 @@ ssize_t read(int fd, void* buf, size_t len) {
     }
     if (s->kind == Sock::Event) {
         preempt_point();
+        if (len < 8) return fail(EINVAL);
         for (;;) {
             if (s->counter > 0) {
-                if (len < 8) return fail(EINVAL);
                 const std::uint64_t v = s->semaphore ? 1 : s->counter;
                 s->counter -= v;
                 memcpy(buf, &v, 8);
